@@ -21,7 +21,7 @@ PLAN = {'quick': {'gen': 8}, 'thorough': {'gen': 16, 'tests': 1, 'docs': 1}}
 REQUIRED_BUCKETS = ['pad:2d', 'pad:cube', 'pad:nonsquare-cube', 'pad:grow', 'pad:shrink', 'pad:mixed',
                     'pad:parity-change', 'subarray', 'window', 'boundary', 'slice_offset', 'centroid', 'rebin',
                     'rebin:cube', 'rebin:small-int', 'mesh', 'shape:circle', 'shape:hexagon', 'shape:rectangle', 'shape:spider', 'shape:sequence', 'shape:binary',
-                    'shape:antialias', 'hexseg', 'hexseg:gap0', 'hexseg:drop']
+                    'shape:antialias', 'hexseg', 'hexseg:gap0', 'hexseg:drop', 'hexseg:drop-repeated']
 REQUIRED_ANCHORS = ['probe:pad', 'anchor:mesh', 'anchor:hex_to_rc', 'anchor:slice_offset', 'anchor:boundary_slice']
 REQUIRED_ORACLES = ['pad=index', 'pad-crop=id', 'subarray=index', 'window=index', 'boundary=set',
                     'slice_offset=render', 'centroid', 'rebin=blocks', 'mesh', 'shape:range', 'shape:binary',
@@ -344,6 +344,11 @@ def workload(ctx, lentil):
         ref = (float(np.sum(ii * xp.astype(rm.LD)) / tot), float(np.sum(jj * xp.astype(rm.LD)) / tot))
         ctx.close('centroid', np.array([cr, cc]), np.array(ref), 1e-12, 'centroid|value',
                   'centroid is not the intensity-weighted mean index', desc, scale=max(s))
+        # a ratio of moments does not depend on the brightness of the frame (irradiance in W, photon counts, ...)
+        cfac = 10.0 ** int(rng.integers(-30, 31))
+        cr2, cc2 = U.centroid(xp * cfac)
+        ctx.close('centroid', np.array([cr2, cc2]), np.array(ref), 1e-12, 'centroid|scale-invariant',
+                  'the centroid depends on the absolute brightness of the image', dict(desc, factor=cfac), scale=max(s))
 
     # ---- rebin / mesh ---------------------------------------------------------------
     for i in range(n):
@@ -508,11 +513,20 @@ def workload(ctx, lentil):
             drop = (0,)
         else:
             drop = tuple(sorted(set(int(x) for x in rng.integers(0, total, int(rng.integers(0, 4))))))
+        drop_arg = drop
+        if drop != (0,) and len(drop) >= 1 and i % 3 == 0:
+            # the same set written another way: unsorted, with an index named twice (two lists joined), as a list or an array
+            lst = list(drop) + [drop[int(rng.integers(0, len(drop)))] for _ in range(int(rng.integers(1, 3)))]
+            lst = [lst[j] for j in rng.permutation(len(lst))]
+            if len(drop) >= 2:
+                lst = [min(drop)] * 2 + [x for x in lst if x != min(drop)]       # a repeated small index ahead of larger ones
+            drop_arg = [lst, tuple(lst), np.array(lst)][i % 9 // 3]
+            ctx.bucket('hexseg:drop-repeated')
         pad = 2 if rng.random() < 0.7 else int(rng.integers(3, 6))
         desc = {'op': 'hex_segments', 'rings': rings, 'radius': radius, 'gap': gap, 'rotate': rotate,
                 'drop': list(drop), 'pad': pad}
         ctx.case(desc, ['hexseg'] + (['hexseg:gap0'] if gap == 0 else []) + (['hexseg:drop'] if drop != (0,) else []))
-        kw = dict(rings=rings, seg_radius=radius, seg_gap=gap, rotate=rotate, pad=pad, drop=drop)
+        kw = dict(rings=rings, seg_radius=radius, seg_gap=gap, rotate=rotate, pad=pad, drop=drop_arg)
         aa = lentil.hex_segments(antialias=True, **kw)
         bb = lentil.hex_segments(antialias=False, **kw)
         want = total - len(drop)
